@@ -20,7 +20,7 @@ OID = (1, 3, 6, 1, 2, 1, 1, 3, 0)
 def forgery_class(cfg, mac, aflag, pflag, enc, anon=None):
     """None = a legitimate message (must be accepted); else the class of forgery."""
     if anon:
-        return "anonymous"
+        return "anonymous" if isinstance(anon, str) else "padded_credentials"
     if not aflag:
         return "flag_noauth"
     if mac != "valid":
@@ -57,6 +57,12 @@ def worker(job):
             # whatever the request looked like, the agent answers as the configured user at the configured level
             me = dict(user=cfg.user.encode(), auth_user=agent.users[cfg.user.encode()])
             kw = dict(mac=c["mac"], flags=flags, encrypt=c["enc"], **me)
+            if c.get("padded"):
+                # credentials that differ from the session's only by a tail of exactly 256 / 512 octets, no valid MAC
+                if c["padded"][0] == "user":
+                    kw.update(user=cfg.user.encode() + b"q" * c["padded"][1], mac="zero")
+                else:
+                    kw.update(engine_id=agent.engine_id + bytes(c["padded"][1]), mac="zero")
             if c.get("anon"):
                 # no user name at all, no MAC, in clear; msgFlags 0x04 (reportable only - the header of a discovery Report) or 0x00
                 kw.update(user=b"", flags=4 if c["anon"] == "reportable" else 0, mac="empty", encrypt=False)
@@ -88,7 +94,7 @@ def worker(job):
         st["case"] = c
         out = drv.call("get", B.oid_text(OID))
         res["cases"] += 1
-        fc = forgery_class(cfg, c["mac"], c["aflag"], c["pflag"], c["enc"], c.get("anon"))
+        fc = forgery_class(cfg, c["mac"], c["aflag"], c["pflag"], c["enc"], c.get("anon") or c.get("padded"))
         cls = "%s:%s" % (c["body"], fc or "legitimate")
         res["classes"][cls] = res["classes"].get(cls, 0) + 1
         if "agent_err" in st:
@@ -181,6 +187,9 @@ def main():
         for anon in ("reportable", "plain"):
             for body in ("response", "report"):
                 cases += [{"mac": "empty", "aflag": False, "pflag": False, "body": body, "enc": False, "anon": anon}] * 2
+        for what in ("user", "engine"):
+            for n in (255, 256, 257, 512):
+                cases.append({"mac": "zero", "aflag": True, "pflag": bool(cfg.priv), "body": "response", "enc": bool(cfg.priv), "padded": (what, n)})
         random.Random(a.seed + ci).shuffle(cases)
         reps = 1 if a.tier == "quick" else 4
         jobs.append({"seed": a.seed * 100 + ci, "cfg": cfg.to_json(), "cases": cases * reps})
